@@ -309,6 +309,18 @@ def where(node):
     return node.where
 
 
+def relinked_on_retry(ig, live, cas_node, links):
+    """Treiber-style push: the stores in `links` (node->next = <expected head>) must precede the CAS on every path
+    from entry and again on every path from the CAS's own failure edge back to it - a failed CAS refreshes the
+    expected value, and a retry that keeps the old link unlinks everything pushed in between"""
+    if not links or not ig.dominated_by(cas_node, links):
+        return False
+    for (s_, d_) in result_edges(ig, set([cas_node.id]), False, live):
+        if cas_node.id in ig.reach([ig.nodes[d_]], removed=links):
+            return False
+    return True
+
+
 def redefined_between(ig, var, a, b):
     """a definition of local `var` that can execute after node a and before node b
     (on a path that does not re-execute a); None if the value b sees is the one a saw"""
